@@ -510,7 +510,7 @@ def _c08(tier, seed):
 
 PROPS["C08"] = {
     "level": "model_checking",
-    "files": ["src/raft/filestore/core.rs", "src/raft/filestore/raftapply.rs", "src/raft/filestore/raftsnapshot.rs"],
+    "files": ["src/raft/filestore/core.rs", "src/raft/filestore/raftapply.rs", "src/raft/filestore/raftsnapshot.rs", "src/raft/filestore/raftdata.rs", "src/config/core.rs", "src/namespace/mod.rs", "src/raft/db/table.rs"],
     "smt": _c08,
     "trusted_base": PROPS["C09"]["trusted_base"],
     "assumptions": [
@@ -522,6 +522,8 @@ PROPS["C08"] = {
         "leader stream of 3 chunks of 2 symbolic bytes; schedules: in order, one chunk resent, behind an interrupted transfer of 3 / 6 / 9 bytes",
         "counterexamples about the state reaching the state machine are replayed on a real node (real store actors + state-machine components, harness/hist_store.rs) through "
         "RaftStorage::{create_snapshot, finalize_snapshot_installation}",
+        "s08_4 / s08_5 / s08_6: the content of the snapshot - the config component's, the namespace registry's and the user table's records written by the leader's build_snapshot and loaded by a fresh "
+        "component through RaftDataHandler::load_snapshot / load_snapshot_record (the obligations s01_5, s01_3, s01_7 of C01, with their bounds and environment models)",
     ],
     "outside": "the sending side and the network transfer (async-raft, tonic), leader election and log replication around the installation, a lagging follower whose old state must be discarded",
     "explanation": "bounded symbolic execution of the snapshot-installation receiver; emission-sequence oracle",
@@ -586,7 +588,7 @@ def _c20_smt(tier, seed):
 PROPS["C20"]["smt"] = _c20_smt
 PROPS["C20"]["assumptions"] = PROPS["C20"]["assumptions"] + [
     "s20_7: InstanceMetaRepository::{write_records_to_file, read_records_from_file, save_file_map, load_file_map}, the generated code of InstanceMetaDo / InstanceFileDo and MessageBufReader from source over "
-    "the file model (File::create truncates, read returns at most the buffer's length, rename replaces); records files of 3 records with metadata value lengths from {3, 300, 700} (thorough: also 1100), "
+    "the file model (File::create truncates, read returns at most the buffer's length, rename replaces); records files of 3 records with metadata value lengths from {3, 300, 700} (thorough: 4 records, also 1100 and 2100), "
     "file maps of 2..=4 services with file names of 32 / 500 / 700 bytes; a branch on a value byte counts as a decoding failure",
     "s20_6: SnapshotWriter / SnapshotReader / MessageBufReader at the source's own 1024-byte chunk and buffer sizes over the file model; snapshots of 3 records with value lengths from {3, 100, 600, 2100} "
     "(thorough: also 1100), every 4th value byte symbolic; a branch on a value byte counts as a decoding failure (lengths and tags were written from concrete numbers)",
